@@ -7,6 +7,7 @@ import (
 	"fmt"
 	"net/http"
 	"strings"
+	"sync"
 	"testing"
 	"time"
 
@@ -338,29 +339,46 @@ func trunc(u []string) []string {
 	return o
 }
 
-// TestC07NonceDistinct: no two of N issued tokens share a nonce (N = VERIF_N).
+// TestC07NonceDistinct: no two of N issued tokens share a nonce (N = VERIF_N); half of them are
+// issued sequentially, half by 8 goroutines concurrently (as simultaneous logins do).
 func TestC07NonceDistinct(t *testing.T) {
 	n := vlib.Scale(20000)
 	f, err := NewWebSessionFactory(time.Minute)
 	if err != nil {
 		t.Fatalf("VERIF-INFRA %v", err)
 	}
+	var mu sync.Mutex
 	seen := make(map[[12]byte]struct{}, n)
-	for i := 0; i < n; i++ {
-		_, _, tok := f.Generate("u", i%2 == 0)
-		nb, _, ok := decodeTok(tok)
-		if !ok || len(nb) != 12 {
-			t.Fatalf("VIOLATION C07: token does not decode: %q", tok)
+	bad := ""
+	issue := func(k int) {
+		for i := 0; i < k; i++ {
+			_, _, tok := f.Generate("u", i%2 == 0)
+			nb, _, ok := decodeTok(tok)
+			var key [12]byte
+			copy(key[:], nb)
+			mu.Lock()
+			if !ok || len(nb) != 12 {
+				bad = fmt.Sprintf("token does not decode: %q", tok)
+			} else if _, dup := seen[key]; dup {
+				bad = fmt.Sprintf("nonce %x used for two tokens (after %d tokens)", nb, len(seen))
+			}
+			seen[key] = struct{}{}
+			mu.Unlock()
 		}
-		var k [12]byte
-		copy(k[:], nb)
-		if _, dup := seen[k]; dup {
-			vlib.Violation(fmt.Sprintf("nonce %x reused after %d tokens", nb, i), "TestC07NonceDistinct", map[string]any{"n": i})
-			t.Fatalf("VIOLATION C07: nonce %x reused after %d tokens", nb, i)
-		}
-		seen[k] = struct{}{}
+	}
+	issue(n / 2)
+	var wg sync.WaitGroup
+	for g := 0; g < 8; g++ {
+		wg.Add(1)
+		go func() { defer wg.Done(); issue(n / 16) }()
+	}
+	wg.Wait()
+	if bad != "" {
+		vlib.Violation(bad, "TestC07NonceDistinct", map[string]any{"n": n})
+		t.Fatalf("VIOLATION C07: %s", bad)
 	}
 	vlib.EvalN(n)
 	vlib.ClassN("nonces-compared", n)
+	vlib.ClassN("nonces-issued-concurrently", n/2)
 	vlib.NT("c07", "nonce-run", n)
 }
